@@ -473,6 +473,114 @@ func runC19(c *Ctx) {
 		})
 		c.check(bad == "" && nmul > 0, "C19.R5", "pitch-users console", fmt.Sprintf("%d multiplication(s) by the pitch, only in fbOffset and the framebuffer size computation", nmul), bad, where...)
 	}
+
+	// ================= R6: scroll distance and fill geometry of the framebuffer console =================
+	c.floor("C19.R6", 2)
+	{
+		zi := &Polyizer{Inline: true, Atom: func(v ssa.Value) string {
+			if _, f, ok := loadedField(v); ok && isIntegral(f.Type()) {
+				return f.Name()
+			}
+			return ""
+		}}
+		// Scroll: every element move fb[i] = fb[i +- D] has D = lines * GlyphHeight * pitch
+		scroll := meth("VesaFbConsole", "Scroll")
+		if scroll == nil {
+			c.unresolved("C19.R6", "VesaFbConsole.Scroll")
+		} else {
+			linesP := paramNamed(scroll, "lines")
+			g := newIG(m, scroll, nil)
+			want := polyAtom("lines").mul(polyAtom("GlyphHeight")).mul(polyAtom("pitch"))
+			bad := ""
+			var where []string
+			nmove := 0
+			for n, in := range g.Ins {
+				st, ok := in.(*ssa.Store)
+				if !ok {
+					continue
+				}
+				da, ok := st.Addr.(*ssa.IndexAddr)
+				if !ok || !isLoadOfField(da.X, vesaFb) {
+					continue
+				}
+				ld, ok := st.Val.(*ssa.UnOp)
+				if !ok || ld.Op != token.MUL {
+					continue
+				}
+				sa, ok := ld.X.(*ssa.IndexAddr)
+				if !ok || !isLoadOfField(sa.X, vesaFb) {
+					continue
+				}
+				nmove++
+				c.Evals++
+				d := zi.Of(sa.Index).add(zi.Of(da.Index), -1)
+				if !d.equal(want) && !d.equal(Poly{}.add(want, -1)) {
+					bad = "the scroll moves bytes by " + d.String() + ", expected lines*GlyphHeight*pitch (whole pixel rows including their padding): the picture shears when the pitch is padded"
+					where = append(where, g.posOf(n))
+				}
+			}
+			if nmove == 0 || linesP == nil {
+				bad = "no framebuffer move found in Scroll (rule shape lost)"
+			}
+			c.check(bad == "", "C19.R6", "scroll-distance "+m.fnName(scroll), fmt.Sprintf("%d element move(s), all by lines*GlyphHeight*pitch bytes", nmove), bad, where...)
+		}
+		// Fill: each painter gets the clipped cell rectangle in pixels:
+		// ((x-1)*GlyphWidth, (y-1)*GlyphHeight, width*GlyphWidth, height*GlyphHeight)
+		fill := meth("VesaFbConsole", "Fill")
+		if fill != nil {
+			g := newIG(m, fill, nil)
+			bad := ""
+			var where []string
+			ncall := 0
+			cellForm := func(p Poly, unit string, minusOne bool) bool {
+				// p = A*unit (- unit): every monomial contains unit exactly once and, with it removed, A is a single variable
+				rest := Poly{}
+				for mono, cf := range p {
+					parts := strings.Split(mono, "×")
+					k := -1
+					for i, a := range parts {
+						if a == unit {
+							k = i
+						}
+					}
+					if k < 0 {
+						return false
+					}
+					r := strings.Join(append(append([]string{}, parts[:k]...), parts[k+1:]...), "×")
+					rest[r] += cf
+				}
+				if minusOne {
+					rest = rest.add(polyConst(1), 1)
+				}
+				_, ok := rest.singleAtom()
+				return ok
+			}
+			for n, in := range g.Ins {
+				for _, pn := range []string{"fill8", "fill16", "fill24"} {
+					if !m.callsTo(in, painters[pn]) {
+						continue
+					}
+					ncall++
+					c.Evals++
+					a := g.callArgs(n)
+					if len(a) < 5 {
+						continue
+					}
+					okArgs := cellForm(zi.Of(a[1]), "GlyphWidth", true) && cellForm(zi.Of(a[2]), "GlyphHeight", true) &&
+						cellForm(zi.Of(a[3]), "GlyphWidth", false) && cellForm(zi.Of(a[4]), "GlyphHeight", false)
+					if !okArgs {
+						bad = fmt.Sprintf("%s is not given the clipped cell rectangle in pixels ((x-1)*GlyphWidth, (y-1)*GlyphHeight, width*GlyphWidth, height*GlyphHeight): it gets (%s, %s, %s, %s)", pn,
+							zi.Of(a[1]), zi.Of(a[2]), zi.Of(a[3]), zi.Of(a[4]))
+						where = append(where, g.posOf(n))
+					}
+				}
+			}
+			if ncall == 0 {
+				bad = "Fill calls no painter (rule shape lost)"
+			}
+			c.check(bad == "", "C19.R6", "fill-geometry "+m.fnName(fill), fmt.Sprintf("%d painter call(s), each with the clipped rectangle scaled by the glyph size", ncall), bad, where...)
+		}
+	}
 }
 
 // dependsOn: v is computed from p (through arithmetic / conversions).
